@@ -340,7 +340,7 @@ func rpcErr(what fmt.Stringer, err error) error {
 // setup builds the tree, starts Ufs on it and attaches the raw client as fid 0.
 // The executor is returned even on error (when there is something to clean up).
 func setup(c *Case) (*executor, error) {
-	dir, err := os.MkdirTemp("/tmp", "c16-")
+	dir, err := os.MkdirTemp("", "c16-")
 	if err != nil {
 		return nil, infraf("MkdirTemp: %v", err)
 	}
